@@ -395,6 +395,8 @@ class FIXNewOrderSingle:
             }
 
         if not status_transitions:
+            if not raise_on_err:
+                return None
             raise FIXError(f"No status transition table for {fix_msg_type=}")
 
         s = status_transitions.get(status, status_transitions[None])
